@@ -791,6 +791,10 @@ def gen_oracle(pid, ops, impl):
                 fails.append({"op": o, "impl": impl[j][:400], "expected": "a module that parses and resolves", "shape": sx,
                               "kfneed": KFNEED_C13.get(cls, []),
                               "why": f"generated module fails the {cls} check: {msg}"})
+        for o, r in zip(ops, impl):
+            if o.startswith(("compile\t", "p_c16\t")) and r.startswith("violated: the file written"):
+                fails.append({"op": o, "impl": r[:300], "expected": "a file that can be included inside a module: the items behind comments and use items",
+                              "kfneed": [], "why": "the generated file is not a well-formed module body: " + r[:200]})
     if pid == "C14":
         for j, o, sx, text, srcs in cases:
             keys = keys_of(sx)
